@@ -348,8 +348,22 @@ func (rn *c15Runner) run(k int, seed uint64, c *c15Case) {
 		return
 	}
 	defer func() {
+		// Drain the outboxes before stopping: Stop cancels the worker's context, and a worker that is just
+		// replaying a put into an erasure-coding store then deadlocks in the real code (a shard store that
+		// fails before draining its pipe blocks erasurecoding.PutPart for ever; see design/C15.md) — a
+		// liveness defect at shutdown that is not what C15 observes and must not stall the run.
+		st.Flush(ctx, 20*time.Second)
 		rn.env.Gate.Open() // never stop a worker parked in the gate with work pending
-		_ = st.Top.Stop(ctx)
+		stopped := make(chan struct{})
+		go func() {
+			defer close(stopped)
+			_ = st.Top.Stop(ctx)
+		}()
+		select {
+		case <-stopped:
+		case <-time.After(30 * time.Second):
+			fmt.Fprintf(os.Stderr, "c15: case %d: Stop did not return within 30s (stack %s %s); continuing\n", k, c.base, verifx.WordString(c.word))
+		}
 		rn.env.Gate.Close()
 	}()
 	caps := partstore.CapabilitiesOf(st.Top)
